@@ -32,6 +32,10 @@ def project_list(tier):
     out.append(("subplan", ("f_subplan", {})))
     out.append(("subplan_tree", ("f_subplan", {"inputs": "tree"})))
     out.append(("selfprod", ("f_selfprod", {})))
+    # incremental builds: a first build with the default schedule, user edits, then every schedule
+    out.append(("chain:edit-outputs", ("f_chain", {"__edits__": [("write", "c.txt", "user\n"), ("write", "a.txt", "user\n")]})))
+    out.append(("chain:edit-src+out", ("f_chain", {"__edits__": [("write", "src.txt", "edited\n"), ("remove", "c.txt")]})))
+    out.append(("amend:edit-extra", ("f_amend", {"extra": "built", "__edits__": [("remove", "extra.txt")]})))
     return out
 
 
@@ -60,9 +64,19 @@ def build_files(proj):
 
 
 def _run(spec, prefix):
-    files = build_files(spec["proj"])
+    fam, knobs = spec["proj"]
+    knobs = dict(knobs)
+    edits = knobs.pop("__edits__", None)
+    files = build_files((fam, knobs))
     w = fresh_world(files)
     cfg = dict(spec["cfg"])
+    if edits:
+        session(w, {"njob": 2}, ())
+        for op in edits:
+            if op[0] == "write":
+                w.write(op[1], op[2])
+            else:
+                w.remove(op[1])
     obs = session(w, cfg, prefix)
     resumed = None
     if obs.ok() and obs.rc_class == "success":
